@@ -10,6 +10,18 @@ BASELINE_OFF = ("cd /repo && env -u CNES_PANDORA_VERIF /venv/bin/python -m pytes
 
 # id -> (technique, level text, level note, design ref)
 CLAIMED = {
+    "C02": (
+        "Hypothesis-generated image pairs vs. naive per-pixel matching-cost reference model",
+        "Exploration: the matching-cost step is run through the machine on generated pairs (mono/multiband, masks with "
+        "no-data and invalid pixels on either side, user mask convention, scalar intervals and per-pixel grids, four "
+        "measures, windows 1-7, subpix 1/2/4) and the whole volume is compared cell by cell with a loop-per-pixel "
+        "reference: values exact for sad/ssd/census, 1e-5 for zncc, NaN pattern exact, disparity axis, type of "
+        "measure, |cost| <= cmax.",
+        "Trusted: pbt/ref/matching.py; integer radiometry (exact float32 sums, exact order-1 zoom). Intervals larger than "
+        "the image overlap are a separate class (known finding C02/disparity-beyond-image-overlap-raises, excluded "
+        "and counted).",
+        "DESIGN.md §5 C02",
+    ),
     "C12": (
         "Hypothesis-generated cost volumes vs. bracketing reference models; pipeline with/without confidence steps (differential)",
         "Exploration: (a) the four confidence classes are called on generated volumes (NaN holes, ties, min/max, eta and "
